@@ -66,6 +66,8 @@ def sites(src):
             t = seg(n.test)
             if t and n.test.lineno == n.test.end_lineno:
                 out.append(("guard-off", n.test, "False"))
+        elif isinstance(n, (ast.Expr, ast.AugAssign)) and n.lineno == n.end_lineno and not (isinstance(n, ast.Expr) and isinstance(n.value, ast.Constant)):
+            out.append(("stmt-del", n, "pass"))
         elif isinstance(n, ast.Subscript) and isinstance(n.slice, ast.Slice) and n.lineno == n.end_lineno and (n.slice.lower or n.slice.upper):
             v = seg(n.value)
             lo = seg(n.slice.lower) if n.slice.lower else ""
@@ -91,6 +93,13 @@ def apply(src, node, text):
     return "\n".join(lines)
 
 
+ANCHORED = {}
+for _l in open(os.path.join(VERIF, "properties.jsonl")):
+    _p = json.loads(_l)
+    for _f in _p["anchors"]["files"]:
+        ANCHORED.setdefault(_f, []).append(_p["id"])
+
+
 def main():
     wt, prop, n, seed = sys.argv[1], sys.argv[2], int(sys.argv[3]), int(sys.argv[4])
     files = sys.argv[5:]
@@ -101,7 +110,7 @@ def main():
                 files = [f for f in p["anchors"]["files"] if f.endswith(".py") and f.startswith("pyteal/")]
     r = random.Random(seed)
     os.makedirs("/var/tmp/automut", exist_ok=True)
-    outp = f"/var/tmp/automut/{prop}.jsonl"
+    outp = f"/var/tmp/automut/{prop}{os.environ.get('AUTOMUT_SUFFIX', '')}.jsonl"
     cands = []
     for f in files:
         p = os.path.join(wt, f)
@@ -138,12 +147,19 @@ def main():
                 rec["verdict"] = "killed-by-suite"
             else:
                 t0 = time.time()
-                cp = subprocess.run([os.path.join(VERIF, "check"), prop, "--tier", "quick"], cwd=VERIF, capture_output=True, text=True, timeout=1800,
-                                    env=dict(os.environ, VERIF_REPO=wt, VERIF_EVIDENCE_DIR="/var/tmp/automut/evidence"))
-                rec["check_rc"] = cp.returncode
+                props = [prop] + [q for q in ANCHORED.get(f, []) if q != prop] if os.environ.get("AUTOMUT_ALL_ANCHORED") else [prop]
+                rcs = {}
+                for q in props:
+                    cp = subprocess.run([os.path.join(VERIF, "check"), q, "--tier", "quick"], cwd=VERIF, capture_output=True, text=True, timeout=1800,
+                                        env=dict(os.environ, VERIF_REPO=wt, VERIF_EVIDENCE_DIR="/var/tmp/automut/evidence"))
+                    rcs[q] = cp.returncode
+                    if cp.returncode == 1:
+                        rec["line1"] = next((l[:240] for l in cp.stdout.splitlines() if l.startswith(("VIOLATION", "UNDECIDED", "  what:"))), "")
+                        break
+                rec["check_rcs"] = rcs
+                rec["check_rc"] = 1 if 1 in rcs.values() else max(rcs.values())
                 rec["check_secs"] = round(time.time() - t0, 1)
-                rec["verdict"] = {0: "MISSED", 1: "caught", 2: "undecided", 3: "checker-crash"}.get(cp.returncode, f"rc{cp.returncode}")
-                rec["line1"] = next((l[:240] for l in cp.stdout.splitlines() if l.startswith(("VIOLATION", "UNDECIDED", "  what:"))), "")
+                rec["verdict"] = {0: "MISSED", 1: "caught", 2: "undecided", 3: "checker-crash"}.get(rec["check_rc"], f"rc{rec['check_rc']}")
                 done += 1
         except subprocess.TimeoutExpired:
             rec["verdict"] = "timeout"
